@@ -1,11 +1,19 @@
-"""C05 - collection deltas are coherent with collection values at every tick (TSS / TSD / tick TSW)."""
+"""C05 - collection deltas are coherent with collection values at every tick (TSS / TSD / tick TSW / duration TSW)."""
 import itertools
 import os
 from vlib import Case, Stream, BUILD, VERIF, model_cmd
 
 ID = "C05"
-LEAN_MODULES = ["HgVerif.Props.C05"]
+LEAN_MODULES = ["HgVerif.Props.C05", "HgVerif.Props.C05Window"]
 _P = "HgVerif.Slots."
+_W = "HgVerif.TimeWindow."
+_TW_THEOREMS = [_W + n for n in [
+    # duration (time-span) window: cyclic buffer -> list refinement
+    "reserve_preserves_content", "ensure_preserves_content", "prune_content", "append_content", "dropped_eq",
+    "push_content", "push_removed", "wf_reachable", "capacity_shape",
+    "window_refines_spec", "window_tick_delta", "window_all_valid", "window_size", "GTW.run_w",
+    "reservePhysical_counterexample",
+]]
 THEOREMS = [_P + n for n in [
     # TSS
     "tss_inv_reachable", "tss_slot_inv_reachable", "tss_delta_canonical", "tss_delta_coherent",
@@ -24,20 +32,25 @@ THEOREMS = [_P + n for n in [
     "window_last_n", "window_evicted", "GWin.run_w",
     # fixed TSL / TSB (ceiling)
     "fixed_cycle_coherent", "fixed_cycle_aux", "fixed_wf_reachable",
-]]
-CXX_TARGETS = ["hgv_slots"]
-RULE = ("mutation histories over real standalone TSOutput objects of TSS<Int>, TSD<Int,TS<Int>>, tick TSW<Int> and fixed "
-        "TSL<TS<Int>,n> with an explicit evaluation time per op; a case is non-trivial when one cycle mutates the same "
-        "key at least twice (cancel / remove+re-insert), or a slot is reused after a physical erase, or the slot "
-        "capacity grows past 8/16/32, or a window evicts, or a list cycle leaves some children unmodified; distinct by "
-        "sha1 of the op list")
+]] + _TW_THEOREMS
+CXX_TARGETS = ["hgv_slots", "hgv_twindow"]
+RULE = ("mutation histories over real standalone TSOutput objects of TSS<Int>, TSD<Int,TS<Int>>, tick TSW<Int>, duration "
+        "TSW<Int> and fixed TSL<TS<Int>,n> with an explicit evaluation time per op; a case is non-trivial when one cycle "
+        "mutates the same key at least twice (cancel / remove+re-insert), or a slot is reused after a physical erase, or "
+        "the slot capacity grows past 8/16/32, or a window evicts, or a duration window lets a value expire, holds more "
+        "than 4 values (its buffer was regrown) or is regrown while wrapped, or a list cycle leaves some children "
+        "unmodified; distinct by sha1 of the op list")
 TRUSTED = ["ankerl::unordered_dense key index modelled as first constructed slot holding the key",
            "sul::dynamic_bitset delta bits modelled per slot (sizes are kept equal to the capacity by ensure_delta_capacity)",
-           "type-erased Value copy/equality/hash of Int keys and values"]
+           "type-erased Value copy/equality/hash of Int keys and values",
+           "duration window: the two parallel heap arrays (values, times) of TSWindowStorageCore modelled as one list of "
+           "(value, time) slots; the signed cut-off `time < modified_time - range` modelled as `time + range < modified_time`"]
 ASSUMPTIONS = ["evaluation times of successive mutations are non-decreasing (the engine's clock); decreasing times are "
                "exercised for correspondence only",
                "TSD children are TS<Int> written through TSDDataMutationView::set; child invalidation and REF children are out of scope",
-               "element types other than Int are not exercised (the slot operations are type-erased)"]
+               "element types other than Int are not exercised (the slot operations are type-erased)",
+               "duration windows: one mutation view per op (push / clear / clear+push); copy_value_from / move_value_from of a "
+               "whole list and copy / move of the window storage are not exercised"]
 
 # ---------------------------------------------------------------------------------------------
 # generators
@@ -289,6 +302,148 @@ def exhaustive_tsd(n_ops, start):
     return out
 
 
+# ---------------------------------------------------------------------------------------------
+# duration (time-span) windows: TimeTSWindowStorage, a cyclic buffer that is regrown (4, 8, 16, ...)
+
+
+class _TwEmit:
+    """op lines of one duration-window case; every push is followed by a dump at the same time"""
+
+    def __init__(self, rng, idx, span, minspan, t0=None):
+        self.rng = rng
+        self.lines = ["case %d" % idx, "twin %d %d" % (span, minspan)]
+        self.span = span
+        self.t = rng.randint(1, 5) if t0 is None else t0
+        self.n = 0
+        self.first = True
+
+    def val(self):
+        self.n += 1
+        return self.n if self.rng.random() < 0.8 else self.rng.randint(-9, 99)
+
+    def push_at(self, t):
+        self.t = t
+        self.first = False
+        self.lines.append("push %d %d" % (t, self.val()))
+        self.lines.append("dump %d" % t)
+        r = self.rng.random()
+        if r < 0.06:
+            self.lines.append("cap")
+        elif r < 0.10:
+            self.lines.append("dump %d" % (t + 1))     # a later time at which nothing happened
+
+    def push(self, step):
+        if self.first:
+            self.first = False
+            self.push_at(self.t)
+        else:
+            self.push_at(self.t + max(1, step))
+
+    def done(self, meta):
+        self.lines.append("cap")
+        self.lines.append("dump %d" % self.t)
+        return Case(self.lines, meta)
+
+
+def _tw_minspan(rng, span):
+    return rng.choice([0, 0, 0, 0, 1, max(1, span // 4), max(1, span // 2), span, span + 3])
+
+
+def gen_tw_growth(rng, idx):
+    """the buffer has to grow while it is wrapped: a sparse group A (k values) and a later group B fill the buffer to
+    its capacity c; A expires (head moves to k); k more values refill it to c; then more values arrive within the span"""
+    c = rng.choice([4, 4, 8, 8, 16, 32])
+    k = rng.randint(1, c - 1)
+    span = rng.choice([4 * c, 6 * c, 10 * c, 100 * c])
+    e = _TwEmit(rng, idx, span, _tw_minspan(rng, span))
+    t0 = e.t
+    for i in range(k):                       # A: t0 .. t0+k-1
+        e.push_at(t0 + i)
+    g = rng.randint(k + 1, max(k + 1, span - 2 * c))
+    tb = t0 + k - 1 + g
+    for i in range(c - k):                   # B: tb .. (all of A still inside the span at the end of B, or nearly)
+        e.push_at(tb + i)
+    tc = max(t0 + k + span, tb + c - k)      # first time at which all of A has left the span
+    if rng.random() < 0.25:
+        tc = max(tb + c - k, tc - rng.randint(1, k))   # ... or only a part of A
+    for i in range(k):                       # C: refill
+        e.push_at(tc + i)
+    for i in range(rng.randint(1, c + 2)):   # D: growth (wrapped when head != 0)
+        e.push(1)
+    for _ in range(rng.randint(0, 6)):       # E: thin out again, look at the order of what leaves
+        e.push(rng.choice([1, span // 3, span // 2, span - 1, span, span + 1]))
+    if rng.random() < 0.4:                   # a second round on the grown buffer
+        for _ in range(rng.randint(2, 2 * c)):
+            e.push(rng.choice([1, 1, 2, span // 4]))
+    return e.done({"profile": "growth"})
+
+
+def gen_tw_rates(rng, idx, maxpush, profile):
+    """piecewise constant tick rates (rising and falling), bursts separated by gaps, random steps"""
+    span = rng.choice([6, 10, 20, 50, 100, 100, 1000])
+    e = _TwEmit(rng, idx, span, _tw_minspan(rng, span))
+    budget = rng.randint(8, maxpush)
+    steps_of = [1, 1, 2, 3, 5, max(1, span // 10), max(1, span // 5), max(1, span // 4), max(1, span // 2), span, span + 1]
+    while budget > 0:
+        if profile == "rates":
+            step, cnt = rng.choice(steps_of), rng.randint(2, 18)
+            for _ in range(min(cnt, budget)):
+                e.push(step)
+            budget -= cnt
+        elif profile == "bursts":
+            cnt = rng.randint(2, 20)
+            for _ in range(min(cnt, budget)):
+                e.push(rng.choice([1, 1, 1, 2]))
+            budget -= cnt
+            e.t += rng.choice([span - 2, span, span + 1, 2 * span, 3 * span + 7])      # the window (nearly) empties
+        else:
+            r = rng.random()
+            e.push(rng.randint(1, 3) if r < 0.6 else rng.randint(max(1, span // 8), max(2, span // 2)) if r < 0.9
+                   else span + rng.randint(-1, 5))
+            budget -= 1
+    return e.done({"profile": profile})
+
+
+def gen_tw_odd(rng, idx, maxpush):
+    """refused ticks (MIN_DT, second tick of a cycle), clear, clear+push, span 0/1, time decrease (correspondence only)"""
+    span = rng.choice([0, 1, 2, 5, 10, 30])
+    e = _TwEmit(rng, idx, span, rng.choice([0, 0, 1, 3, span]))
+    if rng.random() < 0.3:
+        e.lines.append("dump %d" % e.t)
+    for _ in range(rng.randint(4, maxpush)):
+        r = rng.random()
+        if r < 0.70:
+            e.push(rng.choice([1, 1, 1, 2, 3, max(1, span), span + 1, span + 2]))
+        elif r < 0.76:
+            e.lines.append("push %d %d" % (e.t, e.val()))           # second tick in the cycle is refused
+            e.lines.append("dump %d" % e.t)
+        elif r < 0.80:
+            e.lines.append("push 0 1")
+        elif r < 0.87:
+            e.t += rng.randint(1, 3); e.first = False
+            e.lines.append("wclear %d" % e.t); e.lines.append("dump %d" % e.t)
+        elif r < 0.95:
+            e.t += rng.randint(1, 3); e.first = False
+            e.lines.append("wclearpush %d %d" % (e.t, e.val())); e.lines.append("dump %d" % e.t)
+        elif e.t > 3:
+            e.lines.append("push %d %d" % (e.t - rng.randint(1, 3), e.val()))     # older time
+            e.lines.append("dump %d" % e.t)
+    return e.done({"profile": "odd"})
+
+
+def exhaustive_tw(steps, n_push, span, start):
+    """every sequence of `n_push` pushes whose time steps come from `steps` (small scope: first buffer of 4 slots)"""
+    out = []
+    for j, seq in enumerate(itertools.product(steps, repeat=n_push - 1)):
+        t = 1
+        lines = ["case %d" % (start + j), "twin %d 0" % span, "push 1 1", "dump 1"]
+        for i, d in enumerate(seq):
+            t += d
+            lines.append("push %d %d" % (t, i + 2)); lines.append("dump %d" % t)
+        out.append(Case(lines, {"profile": "exhaustive"}))
+    return out
+
+
 def _corpus():
     cdir = os.path.join(VERIF, "corpus", "C05")
     out = {}
@@ -319,7 +474,26 @@ def streams(rng, tier, seed):
     else:
         tss += exhaustive_tss(5, len(tss))
         tsd += exhaustive_tsd(6, len(tsd))
+    # duration windows (hgv_twindow / Drivers/C05W.lean)
+    impl_tw = [os.path.join(BUILD, "hgv_twindow")]
+    model_tw = model_cmd("C05W")
+    mp = 40 if quick else 160
+    tw = [gen_tw_growth(rng, i) for i in range(60 if quick else 2500)]
+    k = len(tw)
+    for prof, cnt in (("rates", 50), ("bursts", 25), ("random", 25)):
+        c = cnt if quick else cnt * 40
+        tw += [gen_tw_rates(rng, k + i, mp, prof) for i in range(c)]
+        k += c
+    tw += [gen_tw_rates(rng, k + i, 150 if quick else 500, "rates") for i in range(4 if quick else 100)]     # long runs
+    k = len(tw)
+    tw += [gen_tw_odd(rng, k + i, 25 if quick else 60) for i in range(30 if quick else 1200)]
+    if quick:
+        twx = exhaustive_tw([1, 3], 9, 6, 0)                       # 256 cases; wrapped growth needs >= 7 pushes
+    else:
+        twx = exhaustive_tw([1, 2, 3, 4], 8, 6, 0) + exhaustive_tw([1, 3, 7], 10, 6, 20000)
     return [
+        Stream("twindow", impl_tw, model_tw, corpus.get("twindow", []) + tw),
+        Stream("twindow-exhaustive", impl_tw, model_tw, twx),
         Stream("tss", impl, model, corpus.get("tss", []) + tss),
         Stream("tsw", impl, model, corpus.get("tsw", []) + tsw),
         Stream("tsl", impl, model, corpus.get("tsl", []) + tsl),
@@ -887,6 +1061,191 @@ def _mon_tsl(case, out):
     return res
 
 
+def _pairs(s):
+    out = []
+    for x in _parse_list(s):
+        v, t = x.split("@")
+        out.append((int(v), int(t)))
+    return out
+
+
+class _TwShadow:
+    """what the cyclic buffer does (head / capacity), for the input-distribution histogram ONLY: the verdicts of the
+    monitor never look at it"""
+
+    def __init__(self):
+        self.cap = self.head = self.size = 0
+
+    def push(self, k, feats):
+        if k:
+            self.head = (self.head + k) % self.cap
+            self.size -= k
+            if self.size == 0:
+                self.head = 0
+        if self.size + 1 > self.cap:
+            new = max(self.size + 1, 4) if self.cap == 0 else max(self.size + 1, 2 * self.cap)
+            if self.cap:
+                feats.add("grow-%d->%d-%s" % (self.cap, new, "WRAPPED(head!=0)" if self.head else "head=0"))
+            wrapped = self.head != 0
+            self.cap, self.head = new, 0
+            self.size += 1
+            return wrapped
+        if self.head + self.size >= self.cap and self.head:
+            feats.add("append-wraps-around")
+        self.size += 1
+        return False
+
+    def clear(self):
+        self.head = self.size = 0
+
+
+def _mon_tw(case, out):
+    """duration window.  Reference (independent of the buffer): the window after a push at time t holds the pushes since
+    the last clear whose time is >= t - span, in push order; the tick's delta is the pushed value, its removed value
+    the last element that left; and, from the implementation's own consecutive dumps, window' = window minus the
+    expired prefix plus the pushed element."""
+    res = _Res()
+    span = minspan = None
+    hist = []               # (value, time) pushed since the last clear
+    ref = []                # reference window
+    lmt = 0
+    ev = None               # (time, value) of the last element that left the span
+    clr = None
+    last_obs = None         # window of the latest dump, when no operation was applied since
+    pending = None          # (t, v, observed window before the push)
+    shadow = _TwShadow()
+    for ln, o in zip(case.lines, out + ["<none>"] * len(case.lines)):
+        w = ln.split()
+        op = w[0]
+        if op == "case":
+            continue
+        if op == "twin":
+            span, minspan = int(w[1]), int(w[2])
+            res.feats.add("span=%s" % (span if span <= 2 else "3..20" if span <= 20 else "21..200" if span <= 200 else ">200"))
+            res.feats.add("min_span" + ("=0" if minspan == 0 else "<=span" if minspan <= span else ">span"))
+            continue
+        if op == "cap":
+            if o.startswith("cap=") and o[4:].isdigit():
+                c = int(o[4:])
+                if c >= 8:
+                    res.feats.add("capacity>=%d" % (64 if c >= 64 else 32 if c >= 32 else 16 if c >= 16 else 8))
+            continue
+        if op in ("push", "wclear", "wclearpush"):
+            t = int(w[1])
+            if t == 0:
+                res.feats.add("min-dt-refused")
+                if o != "err:invalid-arg":
+                    res.bad.append("window mutation at MIN_DT returned %r" % o)
+                continue
+            if t < lmt:
+                res.feats.add("time-decrease(out-of-hypothesis)")
+                return res
+            if t == lmt:
+                res.feats.add("second-tick-in-cycle-refused")
+                if o != "err:logic":
+                    res.bad.append("second window tick at t=%d returned %r" % (t, o))
+                continue
+            if o != "ok":
+                res.bad.append("%s returned %r" % (ln, o))
+            lmt = t
+            pending = None
+            if op in ("wclear", "wclearpush"):
+                hist, ref = [], []; ev = None; clr = t
+                shadow.clear()
+                res.feats.add("clear")
+                last_obs = [] if last_obs is not None else None
+            if op in ("push", "wclearpush"):
+                v = int(w[2])
+                left = [x for x in ref if x[1] < t - span]
+                if left:
+                    ev = (t, left[-1][0]); clr = None
+                    res.feats.add("expire-1" if len(left) == 1 else "expire-several" if len(left) < len(ref) else "expire-all")
+                    res.nontrivial = True
+                if any(x[1] == t - span for x in ref):
+                    res.feats.add("boundary(time == t - span is kept)")
+                hist.append((v, t))
+                ref = [x for x in hist if x[1] >= t - span]
+                if shadow.push(len(left), res.feats):
+                    res.feats.add("GROW-WHILE-WRAPPED"); res.nontrivial = True
+                if len(ref) > 4:
+                    res.nontrivial = True
+                pending = (t, v, last_obs)
+            last_obs = None
+            continue
+        if op == "dump":
+            t = int(w[1])
+            try:
+                f = _fields(o)
+                win, vv, vr = _pairs(f["w"]), _ints(f["vv"]), _pairs(f["vr"])
+                n, valid, allvalid = int(f["n"]), f["valid"] == "1", f["allvalid"] == "1"
+                mod, dl, fmt = f["mod"] == "1", int(f["lmt"]), int(f["fmt"])
+            except Exception as e:      # noqa
+                if o.startswith("err:"):
+                    res.bad.append("reading the window at t=%d threw (%s): value / delta not readable" % (t, o))
+                else:
+                    res.bad.append("unreadable dump %r (%s)" % (o, e))
+                return res
+            if t < lmt:
+                continue
+            show = lambda l: "[" + " ".join("%d@%d" % x for x in l) + "]"       # noqa
+            if win != ref or n != len(ref):
+                res.bad.append("twindow-content: the window is not the list of pushes within the span of the latest push: t=%d window %s (n=%d), "
+                               "span %d, expected %s" % (t, show(win), n, span, show(ref)))
+            if vv != [x[0] for x in win] or vr != win:
+                res.bad.append("twindow-surfaces: value() / values()+value_times() disagree with the indexed readers at()/time_at(): t=%d "
+                               "value() %s, ranges %s, indexed %s" % (t, vv, show(vr), show(win)))
+            if any(a[1] > b[1] for a, b in zip(win, win[1:])):
+                res.bad.append("twindow-order: the times in the window are not ascending (the push order is lost): t=%d %s" % (t, show(win)))
+            if any(x[1] < lmt - span for x in win):
+                res.bad.append("twindow-expiry: the window holds a value that is older than the span of the latest push: t=%d %s" % (t, show(win)))
+            if pending is not None and pending[0] == t:
+                pt, pv, before = pending
+                if before is not None:
+                    k = next((i for i, x in enumerate(before) if x[1] >= pt - span), len(before))     # expired prefix
+                    if True:
+                        if win != before[k:] + [(pv, pt)]:
+                            res.bad.append("twindow-tick: the window is not the previous window with the tick's delta applied (expired prefix dropped, "
+                                           "pushed value appended): t=%d window %s, previous window %s, %d expired, pushed %d"
+                                           % (t, show(win), show(before), k, pv))
+                        want = str(before[k - 1][0]) if k else "-"
+                        if f["ev"] != want:
+                            res.bad.append("twindow-removed: the removed value is not the last element that left the previous window: t=%d removed "
+                                           "value %s, previous window %s, expected %s" % (t, f["ev"], show(before), want))
+                        res.feats.add("tick-to-tick-checked")
+            want_ev = str(ev[1]) if ev is not None and ev[0] == t else "-"
+            if f["ev"] != want_ev:
+                res.bad.append("twindow-removed-value: the removed value is not the last push that left the span at this tick: t=%d removed "
+                               "value %s, expected %s" % (t, f["ev"], want_ev))
+            if fmt != (win[0][1] if win else 0):
+                res.bad.append("twindow-first-modified-time: first_modified_time is not the time of the oldest element: t=%d fmt %d, window %s"
+                               % (t, fmt, show(win)))
+            want_all = lmt != 0 and len(ref) > 0 and (minspan == 0 or ref[-1][1] - ref[0][1] >= minspan)
+            if valid != (lmt != 0) or allvalid != want_all:
+                res.bad.append("twindow-validity: valid / all_valid disagree with the window and the minimum span: t=%d valid=%d all_valid=%d "
+                               "with window %s, min span %d, ticked=%d"
+                               % (t, valid, allvalid, show(ref), minspan, lmt != 0))
+            if lmt != 0:
+                res.feats.add("all-valid" if want_all else "below-min-span")
+            if mod != (t == lmt and lmt != 0) or dl != lmt:
+                res.bad.append("twindow-modified: modified / last_modified_time disagree with the last tick of the window: t=%d modified=%d "
+                               "lmt=%d, last tick was %d" % (t, mod, dl, lmt))
+            want_d = (str(ref[-1][0]) if ref else "none") if (t == lmt and lmt != 0) else "none"
+            if f["d"] != want_d:
+                res.bad.append("twindow-delta: delta_value is not the value pushed at this tick (none when nothing was pushed): t=%d delta %s, "
+                               "expected %s" % (t, f["d"], want_d))
+            if (f["clr"] == "1") != (clr is not None and clr == t):
+                res.bad.append("twindow-cleared: cleared() disagrees with the time of the last clear operation: t=%d cleared=%s, last clear "
+                               "at %s" % (t, f["clr"], clr))
+            if t != lmt:
+                res.feats.add("dump-unmodified-time")
+            last_obs = win
+            pending = None
+            continue
+        if o != "bad-op":
+            res.bad.append("unknown op %r answered %r" % (ln, o))
+    return res
+
+
 def _run(stream, case, out):
     try:
         if stream == "tss":
@@ -895,6 +1254,8 @@ def _run(stream, case, out):
             return _mon_tsl(case, out)
         if stream == "tsw":
             return _mon_tsw(case, out)
+        if stream.startswith("twindow"):
+            return _mon_tw(case, out)
         return _mon_tsd(case, out)
     except Exception as e:      # a crashed / truncated implementation trace
         res = _Res()
@@ -930,8 +1291,8 @@ def alarm_filter(stream, case, impl_out, model_out):
     for ln, a, b in zip(case.lines, impl_out, model_out):
         if a == b:
             continue
-        if ln.split()[:1] == ["slots"]:
-            notes.append("slots: impl %s / model %s" % (a, b))
+        if ln.split()[:1] in (["slots"], ["cap"]):
+            notes.append("%s: impl %s / model %s" % (ln.split()[0], a, b))
         else:
             alarm = True
     return alarm, notes
@@ -939,14 +1300,22 @@ def alarm_filter(stream, case, impl_out, model_out):
 
 TECHNIQUE = ("Lean 4 proof (slot-store representation invariant + refinement of the TSS/TSD delta bits to "
              "`added = value \\ value-at-cycle-start`, `removed = value-at-cycle-start \\ value`, by induction over all "
-             "mutation histories; ring-buffer refinement to `last min(k,N) pushes`) with differential correspondence "
+             "mutation histories; ring-buffer refinement to `last min(k,N) pushes`; growing cyclic buffer of the duration "
+             "window refined to `pushes within the span of the latest push`) with differential correspondence "
              "against real TSOutput objects and an independent trace monitor")
 LEVEL_TEXT = ("Kernel-checked theorems over ALL mutation histories of the modelled KeySlotStore / TSSSlotStorage / "
               "TSDSlotStorage / SizeTSWindowStorage / fixed-TSL code: slot-store representation invariant, delta bits = "
               "(value \\ value-at-cycle-start, value-at-cycle-start \\ value) for TSS and for TSD keys (hence all five "
               "coherence relations, no trace of cancelled mutations, value = fold of all deltas from empty), window = last "
               "min(k,N) pushes with all_valid <-> size >= min_period and the evicted element, fixed-list modified children = "
-              "children written in the cycle. The model is tied to the code by running real TSOutput objects on generated "
+              "children written in the cycle. Duration windows (TimeTSWindowStorage): for ALL histories with non-decreasing "
+              "times the logical content of the cyclic buffer (head/size/capacity, regrown 4,8,16,.. by reserve_exact) = the "
+              "pushes since the last clear whose time is within the span of the latest push, in push order "
+              "(`window_refines_spec`); growth keeps the logical content for every well-formed buffer, wrapped or not "
+              "(`reserve_preserves_content`; `reservePhysical_counterexample` shows the copy in physical slot order does not); "
+              "per tick: new content = old content minus the expired prefix plus the pushed value, removed value = last "
+              "element that left, delta = pushed value (`window_tick_delta`); all_valid / size / first_modified_time through "
+              "the spec list; size <= capacity and head inside the buffer after ANY history. The model is tied to the code by running real TSOutput objects on generated "
               "histories and comparing every observation; an independent trace monitor decides the relations on the "
               "implementation's dumps.")
 LEVEL_NOTE = ("Full at TSD value level for the code with the repair of finding F-C05-1 (fixes/c05_f1.patch, "
@@ -958,4 +1327,6 @@ LEVEL_NOTE = ("Full at TSD value level for the code with the repair of finding F
               "key is created by at() without a value (`tsd_keyset_incoherent`; monitor message `tsd-keyset:` on the stream "
               "`tsd-defects`). Trusted: Lean kernel; axioms propext/Classical.choice/Quot.sound; the hand-written model (hash "
               "index as first constructed slot, bitsets per slot); the correspondence harness. Element types other than Int, "
-              "nested TSD/TSS/TSB values, dynamic TSL, duration windows and child invalidation are not exercised.")
+              "nested TSD/TSS/TSB values, dynamic TSL and child invalidation are not exercised; duration windows are exercised "
+              "through push / clear only (streams `twindow*`, driver hgv_twindow, model Drivers/C05W.lean), not through "
+              "whole-list assignment or copies of the storage.")
